@@ -53,7 +53,7 @@ Section Exec.
       | None => fun _ => zero
       end.
   Definition run_apply (T : linop) arrs scals mats (xin : list R) : list R :=
-    tabulate (oshape_of T) (den (mk_arr arrs) (mk_scal scals) (mk_orc mats) T (of_list zero (ishape_of T) xin)).
+    tabulate (oshape_of T) (den (mk_arr arrs) (mk_scal scals) (mk_orc mats) retab T (of_list zero (ishape_of T) xin)).
   Definition chk_apply (T : linop) arrs scals mats (xin expect : list R) : bool :=
     all2 eqR (run_apply T arrs scals mats xin) expect.
 End Exec.
